@@ -240,8 +240,21 @@ func checkC17(c *ctx) {
 			// every third case: something already sits at the destination path (a retried Persist, a leftover)
 			preexisting := ki%3 == 1
 			if preexisting {
-				must(os.WriteFile(path, full[:len(full)/2], 0o600))
+				var old []byte
+				switch (ki / 3) % 4 {
+				case 0: // a truncated leftover
+					old = append(old, full[:len(full)/2]...)
+				case 3: // a longer file (the product of an earlier, larger segment)
+					old = append(append(old, full...), make([]byte, 777)...)
+				case 1: // crash residue of exactly the final size
+					old = make([]byte, len(full))
+				default: // an earlier output of exactly the final size with one byte different
+					old = append(old, full...)
+					old[len(old)/3] ^= 0x40
+				}
+				mustH(os.WriteFile(path, old, 0o600))
 			}
+			viaMethod := ki%2 == 0 // UnpersistedSegment.Persist or the package function
 			var perr error
 			withFileSizeLimit(uint64(k), func() {
 				func() {
@@ -250,7 +263,11 @@ func checkC17(c *ctx) {
 							perr = fmt.Errorf("PANIC %v", r)
 						}
 					}()
-					perr = zap.PersistSegmentBase(sb, path)
+					if viaMethod {
+						perr = sb.Persist(path)
+					} else {
+						perr = zap.PersistSegmentBase(sb, path)
+					}
 				}()
 			})
 			mErr, _ := modelIO(c, 4096, k, sizes)
@@ -274,6 +291,30 @@ func checkC17(c *ctx) {
 			if bad != "" {
 				c.Violation(fmt.Sprintf("C17 Persist with the file-size limit at %d of %d bytes\n%s\nbatch: %s", k, total, bad, clip(b.Sx().String())), false)
 				return
+			}
+		}
+		// no fault at all, but the destination already holds a longer file: success must still mean
+		// "the file is this segment"
+		for v := 0; v < 2; v++ {
+			path := zh.TmpPath("c17l")
+			mustH(os.WriteFile(path, append(append([]byte(nil), full...), make([]byte, 777)...), 0o600))
+			var perr error
+			if v == 0 {
+				perr = sb.Persist(path)
+			} else {
+				perr = zap.PersistSegmentBase(sb, path)
+			}
+			got, _ := os.ReadFile(path)
+			os.Remove(path)
+			c.Case(fmt.Sprintf("persist-over-longer-%d-%d", i, v), true)
+			c.Count("persist_over_longer_file")
+			if perr == nil && string(got) != string(full) {
+				if kf := c.Known.Match("C17", "destination-not-truncated"); kf != nil {
+					c.KnownFinding(kf.What)
+				} else {
+					c.Violation(fmt.Sprintf("C17 Persist (no fault injected) onto a path that already holds a longer file (%d bytes): Persist reported success but the file has %d bytes, the segment has %d - it does not end with this segment's footer and does not re-open to the content\nbatch: %s", total+777, len(got), total, clip(b.Sx().String())), false)
+					return
+				}
 			}
 		}
 		// ---------- (C) Merge under a file-size limit, tiny merge buffer ----------
@@ -410,6 +451,7 @@ func checkC18(c *ctx) {
 			evs = append(evs, s+1, 0)
 		}
 		tried := map[uint64]bool{}
+		runNo := 0
 		var asyncDelay time.Duration = -1 // >= 0: a second goroutine closes the channel after this delay
 		run := func(k uint64, pre bool) string {
 			ch := make(chan struct{})
@@ -428,6 +470,17 @@ func checkC18(c *ctx) {
 			}
 			path := zh.TmpPath("c18")
 			defer os.Remove(path)
+			// every other attempt: something already sits at the output path (a name reserved
+			// beforehand, the product of an earlier attempt)
+			runNo++
+			if runNo%2 == 0 {
+				old := []byte("reserved")
+				if runNo%4 == 0 {
+					old = make([]byte, 5000)
+				}
+				mustH(os.WriteFile(path, old, 0o600))
+				c.Count("output_path_already_exists")
+			}
 			var merr error
 			var maps [][]uint64
 			func() {
